@@ -150,6 +150,9 @@ func genContainerOpt(t *Tape, yieldProbe bool) *contCase {
 	}
 	d.PtrForm = t.Draw(2) == 1
 	d.PrePop = d.PtrForm && t.Draw(3) == 0
+	if len(states) == 0 && t.Draw(3) == 0 {
+		d.Short, d.NoSBU = true, true
+	}
 	d.EnvSep = []string{"", "", "  ", "\t", "\n", " \t "}[t.Draw(6)]
 	d.EnvPad = []string{"", "", " ", "\n"}[t.Draw(4)]
 	for i, s := range states {
@@ -582,6 +585,9 @@ func c15Verdict(c *contCase, r *contRun, st *Stats) *Violation {
 		return nil
 	}
 	check := func(d *Decl, toks []string) *Violation {
+		if d.NoSBU {
+			return nil // declared through a convenience method: there is no SetByUser pointer to look at
+		}
 		want := fmt.Sprint(len(toks) > 0)
 		key := "r/" + d.Key()
 		for _, where := range []string{"inside the Action", "after Run"} {
@@ -607,6 +613,9 @@ func c15Verdict(c *contCase, r *contRun, st *Stats) *Violation {
 		st.Count("reach.same_app_parsed_again")
 		key := "r/" + c.Decl.Key()
 		for i, snap := range []map[string]VarSnap{r.action2, r.final2} {
+			if c.Decl.NoSBU {
+				break
+			}
 			if got := snap[key].SBU; got != "true" {
 				where := []string{"inside the Action", "after Run"}[i]
 				return &Violation{Clause: "rerun-setbyuser", Detail: fmt.Sprintf("second invocation of the same application object with %q: SetByUser of %s is %s %s", c.Argv2, c.Decl.Key(), got, where), Expected: "true", Observed: got}
